@@ -82,7 +82,9 @@ Fixpoint leaves_kinds (ms os : list leaf) : list kind :=
 
 (* defect-shape codes of a position (first one met on the way down):
    0 none, 1 below a struct stored by value in a map (F8a), 2 below a non-Taggable map payload (F8b),
-   3 below a Taggable map none of whose tags names an existing key (F8c), 4 below an unexported field (F10) *)
+   3 below a Taggable map none of whose tags names an existing key (F8c), 4 below an unexported field (F10),
+   5 in a struct field that follows a Taggable struct field of the same struct (withIgnoreTaggable leaking to siblings) *)
+Definition is_tstruct (x : v) : bool := match deref x with VStruct (Some _) _ => true | _ => false end.
 Definition setw (w code : N) : N := if N.eqb w 0 then code else w.
 Definition no_tag_matches (tg : option (list mtag)) (l : list (N * v)) : bool :=
   match tg with
@@ -106,13 +108,14 @@ Fixpoint diff (w : N) (m o : v) {struct m} : list (N * kind) :=
          | _, _ => [(w, KShape)]
          end) l l'
   | VStruct _ fs, VStruct _ fs' =>
-      (fix go (fs fs' : list field) : list (N * kind) :=
+      (fix go (after : bool) (fs fs' : list field) : list (N * kind) :=
          match fs, fs' with
          | [], [] => []
          | (nm, ex, _, a) :: r, (nm', _, _, b) :: r' =>
-             (if N.eqb nm nm' then diff (if ex then w else setw w 4) a b else [(w, KShape)]) ++ go r r'
+             (if N.eqb nm nm' then diff (if ex then (if after then setw w 5 else w) else setw w 4) a b else [(w, KShape)])
+             ++ go (after || is_tstruct a) r r'
          | _, _ => [(w, KShape)]
-         end) fs fs'
+         end) false fs fs'
   | VMap tg l, VMap _ l' =>
       let w1 := if no_tag_matches tg l then setw w 3 else w in
       (fix go (l l' : list (N * v)) : list (N * kind) :=
@@ -135,7 +138,12 @@ Definition diff_top (m o : v) : list (N * kind) :=
 Definition firstnz (a b : N) : N := if N.eqb a 0 then b else a.
 Fixpoint shape_in (x : v) : N :=
   match x with
-  | VStruct _ fs => fold_right (fun (f : field) acc => firstnz (shape_in (snd f)) acc) 0%N fs
+  | VStruct _ fs =>
+      (fix go (after : bool) (fs : list field) : N :=
+         match fs with
+         | [] => 0%N
+         | f :: r => firstnz (firstnz (shape_in (snd f)) (if after then 5%N else 0%N)) (go (after || is_tstruct (snd f)) r)
+         end) false fs
   | VPtr (Some y) => shape_in y
   | VSlice l => fold_right (fun y acc => firstnz (shape_in y) acc) 0%N l
   | VMap tg l =>
@@ -208,7 +216,7 @@ Definition run_case (e : ecase) : list (N * kind) :=
        ++ (if of_meta fl then [] else [(0%N, KMeta)])
        ++ (let ok := canaries m in if forallb (fun c => memN c ok) (of_json fl) then [] else [(0%N, KCanary)])
    | RErr, _ => [(root_shape (e_payload e), KErrMissing)]
-   | _, ObErr => [(0%N, KErrSpurious)]
+   | _, ObErr => [(root_shape (e_payload e), KErrSpurious)]
    | RConsumed, _ | _, ObConsumed => [(0%N, KConsumed)]
    | RSame, _ | _, ObSame => [(0%N, KSame)]
    end)
